@@ -79,7 +79,11 @@ func corrIgnore(o corrOpts) *res.Summary {
 		outs, err := runModule(dir, cfg, true, false)
 		if err != nil {
 			sum.Notes = append(sum.Notes, "batch failed: "+err.Error()[:min(len(err.Error()), 400)])
-			os.RemoveAll(dir)
+			if os.Getenv("GGV_KEEP") == "" {
+				os.RemoveAll(dir)
+			} else {
+				fmt.Fprintln(os.Stderr, "kept", dir)
+			}
 			continue
 		}
 		byID := map[string]progOutcome{}
